@@ -263,6 +263,16 @@ def year_ok(dt: datetime) -> bool:
     return 1000 <= dt.astimezone(timezone.utc).year <= 9999 and dt.microsecond == 0
 
 
+def canonical_b64(text: str) -> bool:
+    try:
+        return base64.b64encode(base64.b64decode(text, validate=True)).decode() == text
+    except Exception:  # noqa: BLE001
+        return False
+
+
+PRINTABLE = 10**4300
+
+
 def in_domain(resp: Any) -> tuple[bool, str]:
     from kskm.common.data import AlgorithmPolicyRSA
 
@@ -272,13 +282,15 @@ def in_domain(resp: Any) -> tuple[bool, str]:
         return False, "id/domain text"
     if resp.serial < 0:
         return False, "negative serial"
+    if resp.serial >= PRINTABLE:
+        return False, "serial not printable"
     if not resp.bundles:
         return False, "no bundles"
     for p in (resp.ksk_policy, resp.zsk_policy):
         if not p.algorithms:
             return False, "empty algorithm set"
         for a in p.algorithms:
-            if not isinstance(a, AlgorithmPolicyRSA) or a.algorithm.value not in (5, 8, 10) or a.bits < 0 or a.exponent < 0:
+            if not isinstance(a, AlgorithmPolicyRSA) or a.algorithm.value not in (5, 8, 10) or not (0 <= a.bits < PRINTABLE) or not (0 <= a.exponent < PRINTABLE):
                 return False, "non-RSA algorithm policy"
         for f in ("publish_safety", "retire_safety", "max_signature_validity", "min_signature_validity", "max_validity_overlap", "min_validity_overlap"):
             if not whole_seconds_in_range(getattr(p, f)):
@@ -295,20 +307,20 @@ def in_domain(resp: Any) -> tuple[bool, str]:
                 pk = k.public_key.decode("utf-8")
             except UnicodeDecodeError:
                 return False, "key text"
-            if not (plain_text(k.key_identifier, attr=True) and plain_text(pk, attr=False) and pk):
+            if not (plain_text(k.key_identifier, attr=True) and plain_text(pk, attr=False) and pk and canonical_b64(pk)):
                 return False, "key text"
-            if not (0 <= k.key_tag <= 65535 and 0 <= k.ttl and 0 <= k.flags <= 65535 and k.protocol == 3):
+            if not (0 <= k.key_tag <= 65535 and 0 <= k.ttl < PRINTABLE and 0 <= k.flags <= 65535 and k.protocol == 3):
                 return False, "key field range"
         for s in b.signatures:
             try:
                 sd = s.signature_data.decode("utf-8")
             except UnicodeDecodeError:
                 return False, "signature text"
-            if not (plain_text(s.key_identifier, attr=True) and plain_text(sd, attr=False) and sd and plain_text(s.signers_name, attr=False) and s.signers_name):
+            if not (plain_text(s.key_identifier, attr=True) and plain_text(sd, attr=False) and sd and canonical_b64(sd) and plain_text(s.signers_name, attr=False) and s.signers_name):
                 return False, "signature text"
             if not (year_ok(s.signature_inception) and year_ok(s.signature_expiration)):
                 return False, "year"
-            if not (0 <= s.key_tag <= 65535 and 0 <= s.ttl and 0 <= s.original_ttl and 0 <= s.labels <= 255):
+            if not (0 <= s.key_tag <= 65535 and 0 <= s.ttl < PRINTABLE and 0 <= s.original_ttl < PRINTABLE and 0 <= s.labels <= 255):
                 return False, "signature field range"
     return True, ""
 
@@ -1203,7 +1215,7 @@ def witnesses(res: Result, model_lines: list[dict[str, Any]], pending: list[Any]
     pending.append(("F7:year<1000", resp, False, None))
     model_lines.append({"op": "skr_to_xml", "response": response_j(resp)})
     for bad in BAD_IDS:
-        for where in ("id", "domain", "bundle", "key"):
+        for where in (("id",) if bad in ('a"b', "a>b", "") else ("id", "domain", "bundle", "key")):
             base = mk_response(r, 2, real=False, pool=pool)
             try:
                 if where == "id":
@@ -1277,8 +1289,8 @@ def run(tier: str, driver_ok: bool) -> Result:
         pending.append((tag, resp, real, None))
         lines.append({"op": "skr_to_xml", "response": response_j(resp)})
 
-    reps_real = 3 if big else 1
-    reps_fake = 12 if big else 3
+    reps_real = 6 if big else 2
+    reps_fake = 40 if big else 10
     for n in range(1, 10):
         for k in range(reps_real):
             add(f"real:{n}:{k}", mk_response(r, n, real=True, pool=pool), True)
@@ -1295,9 +1307,13 @@ def run(tier: str, driver_ok: bool) -> Result:
     witnesses(res, lines, pending)
     n_resp = len(lines)
     lines += [{"op": "skr_tree", "response": ln["response"]} for ln in lines[:n_resp]]
+    lines += [{"op": "writer_domain", "response": ln["response"]} for ln in lines[:n_resp]]
     model = run_driver(lines, exe=DRIVER) if driver_ok else [None] * len(lines)
     for idx, (tag, resp, real, force_key) in enumerate(pending):
         m_text, m_tree = model[idx], model[n_resp + idx]
+        m_dom = model[2 * n_resp + idx]
+        if m_dom is not None and m_dom != in_domain(resp)[0]:
+            res.disagreement("WriterDomain: the model's domain predicate != the harness's in_domain", {"tag": tag, **describe(resp)}, in_domain(resp), m_dom)
         w, back = judge_response(res, tag, resp, m_text, m_tree if isinstance(m_tree, dict) else None, real=real, sample=(idx in (0, 11)))
         dom, why = in_domain(resp)
         if not dom:
